@@ -9,6 +9,6 @@ for p in "$@"; do
       if [ -f /verif/seeded/$p-$x/meta.json ] && grep -q '"valid_seed"' /verif/seeded/$p-$x/meta.json; then continue; fi
       /venv/bin/python /verif/tools/seed_eval.py $p $x --deliver $root/$p/deliver --all-checks >> /tmp/seed_$p.log 2>&1
     done; echo done >> /tmp/seed_$p.log ) &
-  while [ $(jobs -r | wc -l) -ge 2 ]; do sleep 5; done
+  while [ $(jobs -rp | wc -l) -ge ${LANES:-2} ]; do sleep 5; done
 done
 wait
